@@ -267,7 +267,9 @@ impl VerifRemoteSession {
         let (myself, _) = Actor::spawn(None, SessionStub(inbox.clone()), ())
             .await
             .expect("session stub");
-        let (server, _) = Actor::spawn(None, ServerStub, ()).await.expect("server stub");
+        let (server, _) = Actor::spawn(None, ServerStub, ())
+            .await
+            .expect("server stub");
         let session = NodeSession {
             node_id,
             is_server: false,
